@@ -61,6 +61,12 @@ class Env:
                        2: OscInterface._local_endpoints[(socket.gethostbyname('localhost'), self.extra_port)]}
         self.ports = {1: main._osc_interface.port, 2: self.extra_port}
         self.via = {v: k for k, v in self.ports.items()}
+        self.udp = None
+
+    def udp_path(self):
+        if self.udp is None:
+            self.udp = oscrt.UdpPath(self.main, HOSTS, [(1, 5001), (1, 5002), (2, 5001)])
+        return self.udp
 
 
 def tok_value(tok):
@@ -92,6 +98,9 @@ def do_dispatch(env, c):
     from sc3.base.netaddr import NetAddr
     from sc3.base.systemactions import CmdPeriod
     main = env.main
+    udp = env.udp_path() if c.get('udp') else None
+    if udp is not None and udp.dead:
+        udp = None      # an earlier history killed the library's receive thread: deliver directly instead
     for f in list(OscFunc._all_func_proxies):
         f.free()
     CmdPeriod.free_servers = False
@@ -106,7 +115,9 @@ def do_dispatch(env, c):
                 oscrt.project_param(p, toks)
             tm = (int(time * 2 ** 32) + off) % 2 ** 64
             log.append({'r': i, 'fn': fn, 'a': list(msg[0].encode('utf-8')), 'args': toks,
-                        'src': {'h': HOSTID.get(addr.hostname, 0), 'p': addr.port}, 'via': env.via.get(port, 0),
+                        'src': {'h': HOSTID.get(addr.hostname, 0),
+                                'p': udp.sym.get((addr.hostname, addr.port), addr.port) if udp else addr.port},
+                        'via': env.via.get(port, 0),
                         'tm': list(tm.to_bytes(8, 'big'))})
         return cb
 
@@ -117,7 +128,10 @@ def do_dispatch(env, c):
         try:
             if op == 'create':
                 i = len(rs) + 1
-                src = None if e['src']['h'] == 0 else NetAddr(HOSTS[e['src']['h']], e['src']['p'] or None)
+                sp = e['src']['p']
+                if udp and sp:      # symbolic sender port -> the port of the real sending socket
+                    sp = udp.real_port(e['src']['h'], sp) if (e['src']['h'], sp) in udp.socks else 1
+                src = None if e['src']['h'] == 0 else NetAddr(HOSTS[e['src']['h']], sp or None)
                 path = bytes(e['path']).decode('utf-8')
                 kw = dict(arg_template=template(e['tmpl']))
                 rp = env.ports[e['rport']] if e['rport'] else None
@@ -151,7 +165,10 @@ def do_dispatch(env, c):
                     oi = main._osc_interface
                     dg = bytes((oi._build_msg(0.0, py) if v['t'] == 'm' else oi._build_bundle(0.0, py)).dgram)
                 del log[:]
-                out = oscrt.deliver(main, dg, (HOSTS[e['src']['h']], e['src']['p']), iface=env.ifaces[e['via']])
+                if udp:
+                    out = udp.deliver(dg, (e['src']['h'], e['src']['p']), 20.0, port=env.ports[e['via']])
+                else:
+                    out = oscrt.deliver(main, dg, (HOSTS[e['src']['h']], e['src']['p']), iface=env.ifaces[e['via']])
                 rec = {'op': 'recv', 'dg': list(dg), 'src': e['src'], 'via': e['via'], 'out': out, 'log': list(log),
                        'off': list(off.to_bytes(8, 'big'))}
             else:
